@@ -42,7 +42,8 @@ MIN_NONTRIVIAL = 100
 TOL = 1e-9
 
 GRID = list(range(-2, 4))
-SCALES = [-3.0, -0.5, 1.0 / 3.0, 2.0, 1e-3, 1e3]
+SCALES = [-3.0, -0.5, 1.0 / 3.0, 2.0, 1e-3, 1e3, 1e-9, -1e-12, 1e-30, 1e12]
+TINY = [1e-9, 1e-12, 1e-30]  # 'any length': short but non-zero quaternions (seeded C01-f: tolerance on the squared length)
 I3 = np.eye(3)
 
 
@@ -172,6 +173,14 @@ def _check_P(P, normalize, Qs, Ws, dirs, F, tag, scales=True):
     if scales:
         for s in SCALES:
             F.cmp("Exp_SO3_quat: R(sP) = R(P)", Exp_SO3_quat(s * P), R, TOL, dict(d, s=s), "scale")
+            n += 1
+        for s in TINY:
+            Ps = s * P
+            F.cmp("T_SO3_quat T_SO3_inv_quat = I [tiny P]", T_SO3_quat(Ps) @ T_SO3_inv_quat(Ps), I3, TOL, dict(d, s=s), "TTinv_tiny")
+            for Q in Qs[:3]:
+                Qs_ = s * np.asarray(Q, float)
+                F.cmp("Exp_SO3_quat(quatprod(P,Q)) = R(P) R(Q) [tiny P, Q]", Exp_SO3_quat(quatprod(Ps, Qs_)), R @ Exp_SO3_quat(np.asarray(Q, float)), TOL, dict(d, s=s, Q=list(map(float, Q))), "hom_tiny")
+                n += 1
             n += 1
     # product homomorphism
     for Q in Qs:
